@@ -14,7 +14,7 @@ Reference model: the set of live allocations [addr, addr+size) (plus the pages t
 request, e.g. the stack, plus the brk region). Oracle for every request: the returned region is covered by the VM's
 page list, is disjoint from every other live allocation and does not start at the address of another live
 allocation (zero-sized ones included). MAP_FIXED is the one request that is *meant* to replace what it covers: there
-the model drops the covered allocations and only demands `returned == requested` and `covered by pages`. A
+the model cuts the covered part out of earlier allocations and only demands `returned == requested` and `covered by pages`. A
 VirtualAlloc whose hint is the base of a live allocation is a re-commit (returns the hint, allocates nothing).
 A brk request either moves the break (then the whole data segment [initial break, new break) must be covered by
 pages and must not run over a live allocation) or is refused the Linux way (old break returned), which is only
@@ -230,7 +230,8 @@ def _lin_hint(st, hint):
     return {"occ": o["addr"], "adj": o["addr"] + o["size"], "last": o["addr"] + o["size"] - 1}[hint]
 
 
-BRK_HINTS = ("brk+1p", "brk+2p", "brk+3p")
+SIZES_LINUX_QUICK = [0, 1, 0x1000, 0x1001]   # quick tier: no 0xFFF for mmap (kept for the Windows allocators)
+BRK_HINTS = ("brk+1p", "brk+2p", "brk+3p")  # quick tier: non-fixed only at brk+2p
 BRK_HINT_SIZES = (1, 0x1000)
 BRK_TARGETS = ("f-below", "f-start", "f-inside", "f-end", "f-past")
 
@@ -263,6 +264,7 @@ def events(st):
     if st.broken or st.n >= DEPTH[_TIER["tier"]][st.seed] or invariant(st):
         return []
     evs = []
+    quick = _TIER["tier"] == "quick"
     if st.seed == "win":
         for api in ("heap.alloc", "heap.vm_alloc", "HeapAlloc", "malloc"):
             for n in SIZES:
@@ -276,10 +278,10 @@ def events(st):
             for hint in (("null", "free", "occ", "adj") if not fixed else ("free", "free2", "occ", "adj", "last")):
                 if _lin_hint(st, hint) is None:
                     continue
-                for n in SIZES:
+                for n in (SIZES_LINUX_QUICK if quick else SIZES):
                     evs.append(("mmap", hint, n, fixed))
         for fixed in (1, 0):
-            for hint in BRK_HINTS:
+            for hint in (BRK_HINTS if fixed or not quick else BRK_HINTS[1:2]):
                 for n in BRK_HINT_SIZES:
                     evs.append(("mmap", hint, n, fixed))
         evs.append(("brk", "query"))
@@ -344,9 +346,19 @@ def _apply(st, ev, api, probs):
                         h, n, [(hex(a), hex(s)) for a, s in _pages(st)])))
                 if n:
                     # MAP_FIXED replaces what it covers (a zero-length one covers and places nothing)
-                    st.live = [o for o in st.live
-                               if not ((o["size"] and o["addr"] < addr + n and addr < o["addr"] + o["size"]) or
-                                       (not o["size"] and addr <= o["addr"] < addr + n))]
+                    keep = []
+                    for o in st.live:
+                        if o["size"] and o["addr"] < addr + n and addr < o["addr"] + o["size"]:
+                            # partly replaced: what sticks out on either side stays live
+                            if o["addr"] < addr:
+                                keep.append(dict(addr=o["addr"], size=addr - o["addr"], api=o["api"]))
+                            if addr + n < o["addr"] + o["size"]:
+                                keep.append(dict(addr=addr + n, size=o["addr"] + o["size"] - addr - n, api=o["api"]))
+                        elif not o["size"] and addr <= o["addr"] < addr + n:
+                            pass
+                        else:
+                            keep.append(o)
+                    st.live = keep
                     st.live.append(dict(addr=addr, size=n, api="mmap-fixed"))
                 st.last = (api, hint, _szc(n), "fixed")
             else:
@@ -432,7 +444,8 @@ def run(ctx):
     tctx = TallyCtx(ctx)
     cov = bfs.explore(tctx, sys.modules[__name__], max_depth=max(depths.values()), seeds=SEEDS, chunk=8)
     cov["outcome_counts"] = tctx.table()
-    cov["bounds"] = {"depth_per_system": depths, "sizes": SIZES, "win_free_hint": WIN_FREE_HINT, "linux_free_hint": LIN_FREE_HINT,
+    cov["bounds"] = {"depth_per_system": depths, "sizes": SIZES, "sizes_linux_mmap": SIZES_LINUX_QUICK if ctx.quick else SIZES,
+                     "brk_relative_mmap_hints": list(BRK_HINTS), "brk_relative_mmap_sizes": list(BRK_HINT_SIZES), "brk_targets_around_foreign_mapping": list(BRK_TARGETS), "win_free_hint": WIN_FREE_HINT, "linux_free_hint": LIN_FREE_HINT,
                      "systems": SEEDS}
     return cov
 
